@@ -1,5 +1,6 @@
 import TT.Driver.C03
 import TT.Driver.C04
+import TT.Driver.C05
 import TT.Driver.C06
 import TT.Driver.C11
 import TT.Driver.C12
@@ -14,6 +15,7 @@ def answer (line : String) : String :=
   match line.trimAscii.toString.splitOn " " with
   | "c03" :: rest => c03 rest
   | "c04" :: rest => c04 rest
+  | "c05" :: rest => c05 rest
   | "c06" :: rest => c06 rest
   | "c11" :: rest => c11 rest
   | "c12" :: rest => c12 rest
